@@ -120,7 +120,10 @@ pub fn decode_op(r: &mut Rd) -> Op {
         17 => Op::Claim { u: r.u8() % 8, to: if r.bool() { Some(r.u8() % 6) } else { None } },
         18 | 19 => Op::Accrue { v: r.u8() % 5, coin: r.u8() % 5, amt: amt(r) },
         20 | 21 => Op::UpdateIndex { by: if r.u8() % 6 == 0 { 1 + r.u8() % 3 } else { 0 } },
-        22 => Op::CheckSlashing { u: r.u8() % 6 },
+        22 => {
+            let b = r.u8();
+            if b % 8 == 7 { Op::Migrate { c: (b / 8) % 5 } } else { Op::CheckSlashing { u: b % 6 } }
+        }
         23 | 24 | 25 | 26 => Op::Advance { clock: clock(r) },
         27 | 28 => {
             let b = r.u8();
